@@ -132,6 +132,21 @@ func (w *ssWorld) connect(o ssConnectOpts) bool {
 		return p
 	}
 	cPlan, sPlan := mkPlan("cw"), mkPlan("sw")
+	if t.Draw("huge-write", 12) == 11 {
+		// one very large client write (on and around powers of two)
+		sz := []int{65535, 65536, 65537, 100000, 131073, 300000}[t.Draw("huge-write.size", 6)]
+		cPlan = append(cPlan, sz)
+		for _, p := range []*simnet.Pipe{link.AB, link.BA} {
+			if p.Policy != simnet.ChunkBurst && p.Policy != simnet.ChunkAll && p.Policy != simnet.ChunkMSS {
+				p.Policy = simnet.ChunkAll
+			}
+			if p.MaxRead > 0 && p.MaxRead < 1448 {
+				p.MaxRead = 0
+			}
+		}
+		c.S.MaxSteps *= 4
+		c.Feature("one-very-large-client-write")
+	}
 	var cTotal, sTotal int64
 	for _, n := range cPlan {
 		cTotal += int64(n)
